@@ -26,12 +26,16 @@ def cases(tier, sd):
     return c04.cases(tier, sd + 17)
 
 
-def run_case(spec):
+def _run_case(spec):
     res = common.new_result(spec)
     grids, _ = engine.grid_plan(spec)
     st = S.member(spec['member'])
     vals = []
     keys = CONSTRAINTS + list(DT)
+    # request order varies from case to case (constraints after the BSSNOK
+    # quantities and the other way round)
+    rng = np.random.default_rng([int(spec['member']['seed']), spec['order'], 6])
+    keys = [keys[i] for i in rng.permutation(len(keys))]
     for g in grids:
         ex, rel = c04.evaluate(spec, g, [])
         x, y, z = harness.coords(g['n'], g['lo'], g['d'])
@@ -63,3 +67,7 @@ def run_case(spec):
                          'L0' if lam == 0 else ('L+' if lam > 0 else 'L-')],
                    scale_hints=hints, by_class=False)
     return res
+
+
+def run_case(spec):
+    return engine.refine_if_marginal(_run_case, spec, _run_case(spec))
